@@ -112,8 +112,8 @@ Judge(ev) ==
             LET x == regs[ev.x]  y == regs[ev.y]
                 c == Cmp("eq", x, y)
             IN  IF c.k = "oor" THEN "oor"
-                ELSE IF (c.x = "TRUE") # ev.eq THEN "bad"
-                ELSE IF ev.eq /\ ~ev.heq THEN "bad" ELSE "ok"
+                ELSE IF (c.x = "TRUE") # ev.eq THEN "bad:eq"
+                ELSE IF ev.eq /\ ~ev.heq THEN "bad:hash" ELSE "ok"
       [] OTHER -> Match(Expected(ev), ev.res)
 
 NewReg(ev) ==
@@ -138,9 +138,10 @@ Step ==
             /\ IF j = "ok" THEN TRUE
                ELSE PrintT(<<"QV", j, ev.id, IF ev.op \in {"Round", "Alloc", "HashEq", "Lit", "Sort", "Snap"}
                                              THEN EmptyV ELSE Expected(ev)>>)
-            \* a deviation ends the judgement of the program; a value outside the model range only
-            \* poisons the register it is stored in (events reading it are skipped)
-            /\ live' = (j \in {"ok", "oor"})
+            \* neither a deviation nor a value outside the model range ends the judgement of the program: either only
+            \* poisons the register the result was stored in (events reading it are skipped), so that one deviation -
+            \* a recorded finding, say - does not hide whatever the rest of the program would show
+            /\ live' = TRUE
             /\ mode' = mode /\ mc' = mc
             /\ regs' = IF j = "ok" /\ ev.op = "Alloc"
                        \* the first Len(zs) portions (judged by AllocOK) are stored for later operations
@@ -148,10 +149,12 @@ Step ==
                                              THEN Qty(regs[ev.x].u, <<ev.ps[CHOOSE k \in DOMAIN ev.zs : ev.zs[k] = r][1],
                                                                       ev.ps[CHOOSE k \in DOMAIN ev.zs : ev.zs[k] = r][2]>>)
                                              ELSE regs[r]]
+                       ELSE IF ev.op = "Alloc"
+                       THEN [r \in 1..K |-> IF \E k \in DOMAIN ev.zs : ev.zs[k] = r THEN OORV ELSE regs[r]]
                        ELSE IF j = "ok" /\ HasDest(ev) /\ (ev.op = "Lit" \/ ev.res.k # "e")
                        THEN [regs EXCEPT ![ev.z] = NewReg(ev)]
-                       ELSE IF j = "oor" /\ HasDest(ev) /\ ev.res.k # "e"
-                       THEN [regs EXCEPT ![ev.z] = IF ev.res.k \in {"q", "n"} THEN OORV ELSE EmptyV]
+                       ELSE IF j # "ok" /\ HasDest(ev) /\ ev.op # "Lit" /\ ev.res.k # "e"
+                       THEN [regs EXCEPT ![ev.z] = IF ev.res.k = "t" THEN EmptyV ELSE OORV]
                        ELSE regs
 TraceSpec == Init /\ [][Step]_tvars
 Consumed == TLCGet("stats").diameter = Len(Tr) + 1
